@@ -16,7 +16,7 @@ pub const FLOORS: &[&str] = &[
     "two_loop_revisit", "removed_breakpoint_passed", "resume:continue", "resume:step", "resume:si",
     "resume:so", "loc:abs", "loc:label", "loc:pc", "break_before_first", "break_after_last",
     "break_doubled", "nondefault_origin", "trace_invariant_checked", "origin_below_statement_count", "pause_at_break_outside_image",
-    "reset_between_list_change_and_resume", "many_breakpoints", "break_with_label", "break_with_label_after_last", "pc_relative_breakpoint_after_eval_moved_the_pc", "breakpoints_a_power_of_two_apart", "word_under_a_breakpoint_patched",
+    "reset_between_list_change_and_resume", "many_breakpoints", "break_with_label", "break_with_label_after_last", "pc_relative_breakpoint_after_eval_moved_the_pc", "breakpoints_a_power_of_two_apart", "word_under_a_breakpoint_patched", "breakpoint_32768_words_below_the_pc_or_a_label",
 ];
 
 struct Loopy {
@@ -445,6 +445,25 @@ fn random_case(seed: u64, i: u64) -> CaseOut {
         built.program = Program { items };
         built.input.clear();
     }
+    let wide = !spaced && rng.chance(1, 12);
+    let wide_origin = *rng.pick(&[0x1000u16, 0x0200, 0x3000, 0x7D00]);
+    if wide {
+        // a program of more than 32768 words: breakpoints given as far as an offset reaches (-32768 words from the
+        // PC or from a label, the most negative value sixteen bits hold) name an address like any other
+        let st = |label: Option<&str>, stmt: Stmt| Item::Stmt { label: label.map(|l| l.to_string()), stmt };
+        built.program = Program { items: vec![
+            Item::Orig(wide_origin as i32),
+            st(Some("lp"), Stmt::AddI(0, 0, 1)),
+            st(None, Stmt::AddI(2, 0, -3)),
+            st(None, Stmt::Br(4, Target::Label("lp".into()))),
+            st(None, Stmt::Alias(0x25)),
+            st(None, Stmt::Blkw(0x8000 - 4)),
+            st(Some("far"), Stmt::AddI(1, 1, 1)),
+            st(None, Stmt::Alias(0x25)),
+            Item::End,
+        ] };
+        built.input.clear();
+    }
     let img = match encode(&built.program) {
         Verdict::Accept(img) => img,
         _ => {
@@ -455,6 +474,25 @@ fn random_case(seed: u64, i: u64) -> CaseOut {
     let lay = if rng.bool() { Layout::canonical() } else { Layout::random(&mut rng) };
     let text = render(&built.program, &lay, &mut rng).text;
     let mut cmds = Vec::new();
+    if wide {
+        let far = wide_origin.wrapping_add(0x8000);
+        cmds.push(Cmd::GotoLoc(Loc::Label("far".into(), far, 0)));
+        cmds.push(match rng.below(3) {
+            0 => Cmd::BreakAddLoc(Loc::Pc(-0x8000)),
+            1 => Cmd::BreakAddLoc(Loc::Label("far".into(), far, -0x8000)),
+            _ => Cmd::BreakAddLoc(Loc::Label("far".into(), far, -0x7FFF)),
+        });
+        cmds.push(Cmd::BreakList);
+        cmds.push(Cmd::GotoLoc(Loc::Abs(wide_origin.wrapping_add(2))));
+        cmds.push(Cmd::Continue);
+        cmds.push(Cmd::GotoLoc(Loc::Label("far".into(), far, 0)));
+        cmds.push(if rng.bool() { Cmd::BreakRemoveLoc(Loc::Pc(-0x8000)) } else { Cmd::BreakRemoveLoc(Loc::Label("far".into(), far, -0x8000)) });
+        cmds.push(Cmd::BreakList);
+        cmds.push(Cmd::GotoLoc(Loc::Abs(wide_origin.wrapping_add(2))));
+        cmds.push(Cmd::Continue);
+        cmds.push(Cmd::Continue);
+        out.class("breakpoint_32768_words_below_the_pc_or_a_label");
+    }
     if spaced {
         let stride = *rng.pick(&[32u16, 64, 64, 128, 256]);
         let base = img.origin().wrapping_add(1 + rng.below(stride.min(40) as u64) as u16);
